@@ -89,7 +89,7 @@ def execute(run, prop, shard):
                 allf = list(oo.findings) + [y for y in pair_findings(q, oo) if not isinstance(y, tuple)]
                 return any(g.kind == f0.kind and g.exc == f0.exc and g.backend == f0.backend for g in allf)
 
-            run.finding(f, prog, owned=own, reshrink=still, ctx={"ref": out.ref_env.get(f.backend if f.backend in out.ref_env else "pol")})
+            run.finding(f, prog, owned=own, reshrink=still, ctx={"ref": out.ref_env.get(f.backend if f.backend in out.ref_env else "pol"), "real": out.real_env.get(f.backend if f.backend in out.real_env else "pol")})
     j = run.counters["pairs_judged:sequence"] + run.counters["pairs_judged:multiset"]
     run.inconclusive_if(shard is None and j < n // 2, f"only {j} pairs were compared")
 
